@@ -1,14 +1,15 @@
 /-
 Lemmas for property C07, phase 2, part 13: **the private key is on the list iff delaney2d's
-orbifold is** — for positive curvature, whenever `delaney2d::orbifold_symbol` is defined (no negative handle count; C08's parity monitor
-is a theorem) and under the check "not weakly oriented ⇒ at least one cross-cap" (decidable,
-evaluated by the drivers; they concern the handle / cross-cap bookkeeping of `delaney2d::orbifold_symbol`, i.e. surface topology, not the
+orbifold is** — for positive curvature, unconditionally (C08's genus theorems — Ree's inequality and the orientation cover — give that
+delaney2d's symbol is defined and that a symbol which is not weakly oriented has a cross-cap; these concern the handle / cross-cap bookkeeping of `delaney2d::orbifold_symbol`, i.e. surface topology, not the
 generator).  Assembles the census agreement, the private orientation test, the shape of a
 positive-curvature symbol and the two readings of the generator's list.
 -/
 import DSymVerif.Proofs.DSymGenShape
 import DSymVerif.Proofs.DSymGenSame
 import DSymVerif.Proofs.Delaney2dMapVertices
+import DSymVerif.Proofs.Delaney2dGenus
+import DSymVerif.Proofs.Delaney2dLiftGenus
 
 set_option linter.unusedSectionVars false
 
@@ -254,9 +255,7 @@ include h hds hdim hfar hconn h1 ha hpos
 
 /-- **the private key is on the list iff delaney2d's orbifold is** (K > 0, under the two
     decidable monitors) -/
-theorem private_key_agrees
-    (hdef : ∃ o', D2.orbifoldSymbol ⟨emittedSym c vs, rep⟩ = .ok o')
-    (hcap : ∀ o, D2.orbifoldSymbol ⟨emittedSym c vs, rep⟩ = .ok o → o.orientable = false → 1 ≤ o.count) :
+theorem private_key_agrees :
     ∃ o, orbifoldSymbol c vs = .ok (privString c vs) ∧
       D2.orbifoldSymbol ⟨emittedSym c vs, rep⟩ = .ok o ∧
       (Tables.goodSphericalOrbifolds.contains (privString c vs) = true ↔
@@ -267,9 +266,20 @@ theorem private_key_agrees
   have hb := adm_bounds hw ha
   have hgood := good2d_emitted h hds hdim hfar ha rep
   obtain ⟨hcurv, _⟩ := curvature_emitted h hds hdim hfar vs hl (fun i hi => (hb i hi).1) rep
-  obtain ⟨o', ho'⟩ := hdef
+  obtain ⟨hdd, _⟩ := mkCtx_fields h
+  have hsz : 1 ≤ (⟨emittedSym c vs, rep⟩ : Sym).size := by show 1 ≤ c.dset.size; rw [hdd]; exact h1
+  have hcn : (⟨emittedSym c vs, rep⟩ : Sym).view.isConnected = true := by
+    show c.dset.viewSimple.isConnected = true; rw [hdd]; exact hconn
+  -- delaney2d's symbol is defined, and a symbol that is not weakly oriented has a cross-cap
+  obtain ⟨o', ho'⟩ := orbifoldSymbol_total hgood hcn
   have hmon := parityMonitor_holds hgood ho'
   obtain ⟨o, hx⟩ := symbolCensus_of_parity hgood hmon
+  have hcap : ∀ o, D2.orbifoldSymbol ⟨emittedSym c vs, rep⟩ = .ok o → o.orientable = false → 1 ≤ o.count := by
+    intro o2 ho2 hor
+    obtain ⟨_, _, _, hori, _⟩ := orbSym_fields hgood ho2
+    have hwo : (⟨emittedSym c vs, rep⟩ : Sym).view.isWeaklyOriented = false := by
+      rw [hor] at hori; exact hori.symm
+    exact (crosscap_of_not_weaklyOriented hgood hcn hwo ho2).2
   obtain ⟨K, hK, hKv⟩ := gauss_bonnet_census hgood hx
   rw [hcurv] at hK
   have hKq : K.toRat = curvQ c vs := by rw [← Outcome.ok.inj hK, Frac.toRat_ofRat]
